@@ -114,6 +114,8 @@ class GearModel:
         self.ignore_program = False           # never stores PROGRAM SHORT ADDRESS
         self.mute_verify = False              # never answers VERIFY SHORT ADDRESS
         self.ignore_set_short = False         # SET SHORT ADDRESS has no effect (the stored address is stuck)
+        self.randomise_latency = 0.0          # seconds of bus time a RANDOMISE needs before the new random address is there
+        self._pending_random = None
         self.program_failures_left = 0        # this many further PROGRAM SHORT ADDRESS that reach the unit are not stored
         self.no_dtr0_increment = False        # memory access does not advance DTR0
         # observations
@@ -122,6 +124,16 @@ class GearModel:
         self.log = []
 
     # ------------------------------------------------------------------
+    def elapse(self, dt):
+        if self._pending_random is not None:
+            value, left = self._pending_random
+            left -= dt
+            if left <= 1e-9:
+                self.random = value
+                self._pending_random = None
+            else:
+                self._pending_random = (value, left)
+
     def _draw(self):
         self.randomise_count += 1
         if self.randoms:
@@ -199,7 +211,11 @@ class GearModel:
                 self.init_state = ENABLED
         elif hi == SP_RANDOMISE:
             if twice and lo == 0 and self.init_state != DISABLED:
-                self.random = self._draw()
+                if self.randomise_latency > 0:
+                    # "RANDOMISE can take up to 100 ms": the new random address is there after that time on the bus
+                    self._pending_random = (self._draw(), self.randomise_latency)
+                else:
+                    self.random = self._draw()
         elif hi == SP_COMPARE:
             if lo == 0 and self.init_state == ENABLED and self.random <= self.search:
                 return YES
